@@ -215,13 +215,22 @@ Record DInv (r0 : N) (l : list transition) (o : disk) : Prop := {
   i_buf_in : forall t c, In t (firstn (bl o) l) -> In c (t_changes t) -> buf o (c_key c) <> None;
   i_buf_empty : buf_layers o = 0 -> forall k, buf o k = None }.
 
-Record Inv (r0 : N) (l : list transition) (st : db) : Prop := {
+(* what holds all along a Recover: the freezer head may be ahead of the disk layer *)
+Record RInv (r0 : N) (l : list transition) (st : db) : Prop := {
   i_disk : DInv r0 l (dk st);
-  i_head : fr_head (fr st) = len l;
-  i_tail : fr_tail (fr st) <= fr_head (fr st);
+  i_headle : len l <= fr_head (fr st);
   i_frz : frz_ok r0 (fr st) l;
   i_wf : wf_chain l;
-  i_ids : ids_ok r0 (ids st) l;
+  i_ids : ids_ok r0 (ids st) l }.
+
+(* between operations the freezer head is the disk layer's id *)
+Record CInv (r0 : N) (l : list transition) (st : db) : Prop := {
+  i_r : RInv r0 l st;
+  i_head : fr_head (fr st) = len l;
+  i_tail : fr_tail (fr st) <= fr_head (fr st) }.
+
+Record Inv (r0 : N) (l : list transition) (st : db) : Prop := {
+  i_c : CInv r0 l st;
   i_diffs : diffs_ok (sem_rev l) (len l) (diffs st) }.
 
 Lemma diffs_ok_ext ds : forall m m' id,
@@ -267,7 +276,7 @@ Proof.
 Qed.
 
 Lemma frz_ok_read r0 f l pre t r :
-  frz_ok r0 f l -> fr_head f = len l ->
+  frz_ok r0 f l -> len l <= fr_head f ->
   l = pre ++ t :: r -> fr_tail f < len (t :: r) ->
   fr_read f (len (t :: r)) = Some (mkHist (root_rev r0 r) (t_root t) (origs t)).
 Proof.
@@ -363,7 +372,8 @@ Qed.
 Lemma buf_revert_ok (os : list (key * N)) : forall b,
   NoDup (map fst os) ->
   (forall k v, In (k, v) os -> exists cur, b k = Some cur /\ ~ (cur = 0 /\ v = 0)) ->
-  exists b', buf_revert b os = Ok b' /             forall k, b' k = fu b (map (fun p => (fst p, Some (snd p))) os) k.
+  exists b', buf_revert b os = Ok b' /\
+             forall k, b' k = fu b (map (fun p => (fst p, Some (snd p))) os) k.
 Proof.
   induction os as [|[k0 v0] os IH]; intros b ND H; simpl.
   - eexists. split; [reflexivity|]. reflexivity.
@@ -388,7 +398,9 @@ Proof.
   destruct (buf_layers o =? 0) eqn:Eb; simpl.
   - (* persistent state *)
     apply N.eqb_eq in Eb. assert (Hbl : bl o = 0%nat) by (unfold bl; lia).
-    eexists. split; [reflexivity|]. constructor; simpl; auto.
+    eexists. split; [reflexivity|]. constructor; simpl.
+    + exact Hid.
+    + reflexivity.
     + intro k. unfold eff. simpl. rewrite (i_buf_empty _ _ _ D Eb).
       unfold flat_revert. fold (fu (pflat o) (origs t)).
       rewrite (fu_ext (origs t) (pflat o) (apply_tr (sem_rev l) t) k).
@@ -407,12 +419,15 @@ Proof.
     destruct (buf_layers o - 1 =? 0) eqn:E1.
     + (* the buffer held only this transition: reset *)
       apply N.eqb_eq in E1. assert (Hb1 : bl o = 1%nat) by lia.
-      eexists. split; [reflexivity|]. constructor; simpl; auto.
+      eexists. split; [reflexivity|]. constructor; simpl.
+      * exact Hid.
+      * reflexivity.
       * intro k. unfold eff. simpl. rewrite (i_pflat _ _ _ D). rewrite Hb1. reflexivity.
       * unfold bl. simpl. lia.
       * assert (X := i_pid _ _ _ D). lia.
       * intro k. unfold bl. simpl. rewrite (i_pflat _ _ _ D). rewrite Hb1. reflexivity.
       * unfold bl. simpl. intros ? ? [].
+      * intros _ k. reflexivity.
     + apply N.eqb_neq in E1.
       destruct (buf_revert_ok (origs t) (buf o)) as [b' [Hb' Hk]].
       * rewrite map_fst_origs. exact ND.
@@ -435,7 +450,9 @@ Proof.
           unfold os, origs. rewrite map_map. apply in_map_iff. exists c. auto. }
         assert (Hnot : forall k, ~ In k (map c_key (t_changes t)) -> b' k = buf o k).
         { intros k Hn. rewrite Hk. apply fu_notin. rewrite Hfst. exact Hn. }
-        constructor; simpl; auto.
+        constructor; simpl.
+        -- exact Hid.
+        -- reflexivity.
         -- intro k. unfold eff. simpl.
            destruct (in_dec key_dec k (map c_key (t_changes t))) as [HI|HN].
            ++ apply in_map_iff in HI as [c [<- Hc]]. rewrite Hin by auto.
@@ -453,3 +470,334 @@ Proof.
            ++ rewrite Hnot by auto. exact X.
         -- intro H0. lia.
 Qed.
+
+(* ---------- revert, the Recover loop ------------------------------------------------- *)
+
+Lemma ids_ok_suffix r0 m pre : forall s, ids_ok r0 m (pre ++ s) -> ids_ok r0 m s.
+Proof.
+  induction pre as [|p pre IH]; intros s H; simpl in *; auto. apply IH. apply H.
+Qed.
+
+Lemma ids_ok_weaken r0 m m' l :
+  (forall x i, m' x = Some i -> m x = Some i \/ len l <= i) ->
+  ids_ok r0 m l -> ids_ok r0 m' l.
+Proof.
+  induction l as [|t r IH]; intros Hm H.
+  - simpl in *. split; auto. intros i Hi. destruct (Hm _ _ Hi) as [A|A]; [apply H; exact A|exact A].
+  - simpl in H. destruct H as [H1 H2]. split.
+    + intros i Hi. destruct (Hm _ _ Hi) as [A|A]; [apply H1; exact A|exact A].
+    + apply IH; auto. intros x i Hi. destruct (Hm _ _ Hi) as [A|A]; auto.
+      right. rewrite len_cons in A. lia.
+Qed.
+
+Definition same_but_disk (st st' : db) : Prop :=
+  cfg st' = cfg st /\ wait_sync st' = wait_sync st /\ ids st' = ids st /\ fr st' = fr st /\
+  diffs st' = diffs st /\ ix st' = ix st.
+
+Lemma revert_step r0 t l st :
+  RInv r0 (t :: l) st -> ix st = None -> fr_tail (fr st) < len (t :: l) ->
+  let h := mkHist (root_rev r0 l) (t_root t) (origs t) in
+  read_history (fr st) (disk_id (dk st)) = Ok h /\
+  exists st', revert st h = Done st' /\ RInv r0 l st' /\ same_but_disk st st'.
+Proof.
+  intros R Hix Ht h. destruct R as [D Hh F W I]. simpl in W. destruct W as [W Wc].
+  assert (Hr : fr_read (fr st) (len (t :: l)) = Some h).
+  { apply (frz_ok_read r0 (fr st) (t :: l) [] t l); auto. }
+  split.
+  - unfold read_history. rewrite (i_id _ _ _ D). rewrite Hr.
+    unfold h. rewrite (decodable_wf _ _ _ _ W). reflexivity.
+  - destruct (revert_disk_ok r0 l t (dk st) D W) as [o' [Ho' D']]. fold h in Ho'.
+    unfold revert. simpl h_root.
+    replace (t_root t =? disk_root (dk st)) with true.
+    2:{ symmetry. apply N.eqb_eq. rewrite (i_root _ _ _ D). reflexivity. }
+    simpl negb. cbv iota.
+    replace (disk_id (dk st) =? 0) with false.
+    2:{ symmetry. apply N.eqb_neq. rewrite (i_id _ _ _ D), len_cons. lia. }
+    rewrite Hix. simpl. rewrite Ho'.
+    eexists. split; [reflexivity|]. split.
+    + constructor; simpl; auto.
+      * rewrite len_cons in Hh. lia.
+      * simpl in F. apply F.
+      * simpl in I. apply I.
+    + unfold same_but_disk. simpl. rewrite Hix. auto 10.
+Qed.
+
+Lemma rinv_set_diffs r0 l st ds : RInv r0 l st -> RInv r0 l (set_diffs st ds).
+Proof. intros [D Hh F W I]. constructor; simpl; auto. Qed.
+
+Lemma recover_loop_ok r0 root pre : forall l st fuel,
+  RInv r0 (pre ++ l) st -> ix st = None ->
+  root_rev r0 l = root ->
+  (forall p1 p2, pre = p1 ++ p2 -> p2 <> [] -> root_rev r0 (p2 ++ l) <> root) ->
+  fr_tail (fr st) <= len l ->
+  (length pre < fuel)%nat ->
+  exists st', recover_loop fuel st root = Done st' /\ RInv r0 l st' /\
+              cfg st' = cfg st /\ wait_sync st' = wait_sync st /\ ids st' = ids st /\
+              fr st' = fr st /\ ix st' = None /\
+              ((pre = [] /\ st' = st) \/ diffs st' = []).
+Proof.
+  induction pre as [|p pre IH]; intros l st fuel R Hix Hroot Hne Ht Hf.
+  - simpl in R. exists st. split.
+    + destruct fuel; simpl; replace (disk_root (dk st) =? root) with true; auto;
+        symmetry; apply N.eqb_eq; rewrite (i_root _ _ _ (i_disk _ _ _ R)); exact Hroot.
+    + auto 10.
+  - simpl in R. destruct fuel as [|fuel]; [simpl in Hf; lia|].
+    assert (Htl : fr_tail (fr st) < len (p :: pre ++ l)).
+    { rewrite len_cons. unfold len in *. rewrite app_length. lia. }
+    destruct (revert_step r0 p (pre ++ l) st R Hix Htl) as [Hread [st1 [Hrev [R1 S1]]]].
+    destruct S1 as [Sc [Sw [Si [Sf [Sd Sx]]]]].
+    simpl recover_loop.
+    replace (disk_root (dk st) =? root) with false.
+    2:{ symmetry. apply N.eqb_neq. rewrite (i_root _ _ _ (i_disk _ _ _ R)).
+        apply (Hne [] (p :: pre)); [reflexivity|discriminate]. }
+    rewrite Hread, Hrev.
+    destruct (IH l (set_diffs st1 []) fuel) as [st' [Hl [R' [Ec [Ew [Ei [Ef [Ex Hd]]]]]]]].
+    + apply rinv_set_diffs. exact R1.
+    + simpl. rewrite Sx. exact Hix.
+    + exact Hroot.
+    + intros p1 p2 E Hp2. apply (Hne (p :: p1) p2); [simpl; rewrite E; reflexivity|exact Hp2].
+    + simpl. rewrite Sf. exact Ht.
+    + simpl in Hf. lia.
+    + exists st'. split; [exact Hl|]. split; [exact R'|].
+      simpl in *. rewrite Ec, Ew, Ei, Ef, Sc, Sw, Si, Sf.
+      repeat (split; [reflexivity|]). split; [exact Ex|].
+      right. destruct Hd as [[_ E]|E]; [subst st'; reflexivity|exact E].
+Qed.
+
+(* splitting a chain at a given length *)
+Lemma split_at_len (l0 : list transition) (i : N) :
+  i < len l0 -> exists pre t l, l0 = pre ++ t :: l /\ len l = i.
+Proof.
+  intro H. unfold len in *.
+  set (n := (length l0 - S (N.to_nat i))%nat).
+  assert (Hn : (n < length l0)%nat) by (unfold n; lia).
+  destruct (nth_split l0 (mkTr 0 []) Hn) as [pre [l [E Hl]]].
+  exists pre, (nth n l0 (mkTr 0 [])), l. split; [exact E|].
+  apply (f_equal (@length transition)) in E. rewrite app_length in E. simpl in E. unfold n in *. lia.
+Qed.
+
+Definition outcome_state (o : out) : db := match o with Done s => s | Fail _ s => s end.
+
+Theorem recover_exact r0 l0 st root :
+  Inv r0 l0 st -> ix st = None -> recoverable st root = true ->
+  exists pre l st',
+    l0 = pre ++ l /\ pre <> [] /\ root_rev r0 l = root /\ ids st root = Some (len l) /\
+    recover st root = Done st' /\ Inv r0 l st' /\
+    (forall k, eff (dk st') k = sem_rev l k) /\
+    disk_root (dk st') = root /\ disk_id (dk st') = len l /\
+    fr_head (fr st') = len l /\ fr_tail (fr st') = fr_tail (fr st) /\
+    fr_data (fr st') = fr_data (fr st) /\
+    ids st' = ids st /\ diffs st' = [].
+Proof.
+  intros [[R Hhead Htail] Hdiffs] Hix Hrec.
+  unfold recoverable in Hrec.
+  destruct (wait_sync st) eqn:Ews; [discriminate|].
+  destruct (ids st root) as [i|] eqn:Eid; [|discriminate].
+  destruct (disk_id (dk st) <=? i) eqn:Ele; [discriminate|]. apply N.leb_gt in Ele.
+  rewrite (i_id _ _ _ (i_disk _ _ _ R)) in Ele.
+  destruct (fr_read (fr st) (i + 1)) as [h|] eqn:Eread; [|discriminate]. apply N.eqb_eq in Hrec.
+  destruct (split_at_len l0 i Ele) as [pre0 [t [l [E Hl]]]].
+  assert (Htl : fr_tail (fr st) < len (t :: l)).
+  { unfold fr_read in Eread. destruct (fr_tail (fr st) <? i + 1) eqn:E1; [|discriminate].
+    apply N.ltb_lt in E1. rewrite len_cons. lia. }
+  assert (Hr := frz_ok_read r0 (fr st) l0 pre0 t l (i_frz _ _ _ R) (i_headle _ _ _ R) E Htl).
+  rewrite len_cons, Hl, Eread in Hr. injection Hr as Hh. subst h. simpl in Hrec.
+  set (pre := pre0 ++ [t]).
+  assert (El0 : l0 = pre ++ l) by (unfold pre; rewrite <- app_assoc; exact E).
+  assert (Hne : forall p1 p2, pre = p1 ++ p2 -> p2 <> [] -> root_rev r0 (p2 ++ l) <> root).
+  { intros p1 p2 Ep Hp2 Hroot.
+    assert (I2 : ids_ok r0 (ids st) (p2 ++ l)).
+    { apply (ids_ok_suffix r0 (ids st) p1). rewrite app_assoc, <- Ep, <- El0. apply (i_ids _ _ _ R). }
+    destruct (p2 ++ l) eqn:Ep2.
+    - destruct p2; [exfalso; apply Hp2; reflexivity|discriminate].
+    - simpl in I2. destruct I2 as [I2 _]. simpl in Hroot. simpl in I2. rewrite Hroot, Eid in I2.
+      specialize (I2 i eq_refl).
+      assert (len (t0 :: l1) = len (p2 ++ l)) by (rewrite Ep2; reflexivity).
+      unfold len in *. rewrite app_length in *. destruct p2; [contradiction|simpl in *; lia]. }
+  rewrite El0 in R.
+  destruct (recover_loop_ok r0 root pre l st (S (N.to_nat (disk_id (dk st)))) R Hix Hrec Hne)
+    as [st1 [Hloop [R1 [Ec [Ew [Ei [Ef [Ex Hd]]]]]]]].
+  { rewrite len_cons in Htl. lia. }
+  { rewrite (i_id _ _ _ (i_disk _ _ _ R)). unfold len. rewrite app_length. lia. }
+  assert (Hpre : pre <> []) by (unfold pre; destruct pre0; discriminate).
+  destruct Hd as [[Hp _]|Hd]; [contradiction|].
+  exists pre, l. eexists. split; [exact El0|]. split; [exact Hpre|]. split; [exact Hrec|].
+  split; [congruence|].
+  assert (Hrv : recover st root =
+                Done (set_fr st1 (mkFrz (fr_tail (fr st1)) (disk_id (dk st1)) (fr_data (fr st1))))).
+  { unfold recover. rewrite Ews. unfold recoverable. rewrite Ews, Eid.
+    replace (disk_id (dk st) <=? i) with false.
+    2:{ symmetry. apply N.leb_gt. rewrite (i_id _ _ _ (i_disk _ _ _ R)). rewrite <- El0. exact Ele. }
+    rewrite Eread. simpl h_parent. replace (root_rev r0 l =? root) with true by (symmetry; apply N.eqb_eq; exact Hrec).
+    simpl negb. cbv iota. rewrite Hloop. unfold truncate_head.
+    rewrite (i_id _ _ _ (i_disk _ _ _ R1)), Ef.
+    replace (fr_head (fr st) <? len l) with false.
+    2:{ symmetry. apply N.ltb_ge. rewrite Hhead. rewrite Hl. lia. }
+    replace (len l <? fr_tail (fr st)) with false.
+    2:{ symmetry. apply N.ltb_ge. rewrite len_cons in Htl. lia. }
+    reflexivity. }
+  split; [exact Hrv|].
+  assert (Hid1 := i_id _ _ _ (i_disk _ _ _ R1)).
+  split; [|simpl; rewrite Hid1, Ef, Ei; repeat split; auto;
+           try apply (i_eff _ _ _ (i_disk _ _ _ R1));
+           try (rewrite (i_root _ _ _ (i_disk _ _ _ R1)); exact Hrec)].
+  constructor; [constructor|]; simpl.
+  - destruct R1 as [D1 H1 F1 W1 I1]. constructor; simpl; auto.
+    + rewrite Hid1. lia.
+    + rewrite Hid1. apply (frz_ok_window r0 (fr st1) l (fr_tail (fr st1)) (len l)); [lia|exact F1].
+  - exact Hid1.
+  - rewrite Hid1, Ef. rewrite len_cons in Htl. lia.
+  - rewrite Hd. exact I.
+Qed.
+
+Theorem not_recoverable_noop st root :
+  recoverable st root = false ->
+  exists e, recover st root = Fail e st /\ (e = EWaitSync \/ e = EUnrecoverable).
+Proof.
+  intro H. unfold recover. destruct (wait_sync st).
+  - exists EWaitSync. auto.
+  - rewrite H. exists EUnrecoverable. auto.
+Qed.
+
+(* ---------- committing a diff layer ------------------------------------------------- *)
+
+Lemma write_history_ok r0 l st d :
+  CInv r0 l st -> ix st = None -> d_id d = len l + 1 ->
+  exists st1 fl tail',
+    write_history st d = WOk st1 fl /\
+    dk st1 = dk st /\ ids st1 = ids st /\ cfg st1 = cfg st /\ wait_sync st1 = wait_sync st /\
+    diffs st1 = diffs st /\ ix st1 = None /\
+    fr st1 = mkFrz tail' (d_id d)
+               (updN (fr_data (fr st)) (d_id d)
+                     (Some (mk_history (disk_root (dk st)) (d_root d) (t_changes (d_tr d))))) /\
+    fr_tail (fr st) <= tail' /\ tail' <= d_id d.
+Proof.
+  intros [R Hh Ht] Hix Hid. unfold write_history.
+  replace (fr_head (fr st) + 1 =? d_id d) with true by (symmetry; apply N.eqb_eq; lia).
+  simpl negb. cbv iota. simpl ix. rewrite Hix. simpl.
+  set (h := mk_history (disk_root (dk st)) (d_root d) (t_changes (d_tr d))).
+  destruct (cfg_limit (cfg st) =? 0) eqn:El.
+  { eexists _, _, (fr_tail (fr st)). split; [reflexivity|]. simpl. repeat (split; [reflexivity|]). lia. }
+  apply N.eqb_neq in El.
+  destruct (d_id d - fr_tail (fr st) <=? cfg_limit (cfg st)) eqn:E1.
+  { eexists _, _, (fr_tail (fr st)). split; [reflexivity|]. simpl. repeat (split; [reflexivity|]). lia. }
+  apply N.leb_gt in E1.
+  destruct (pid (dk st) <? d_id d - cfg_limit (cfg st) + 1) eqn:E2.
+  { eexists _, _, (fr_tail (fr st)). split; [reflexivity|]. simpl. repeat (split; [reflexivity|]). lia. }
+  unfold truncate_tail. simpl.
+  replace (d_id d - cfg_limit (cfg st) + 1 - 1 <? fr_tail (fr st)) with false
+    by (symmetry; apply N.ltb_ge; lia).
+  replace (d_id d <? d_id d - cfg_limit (cfg st) + 1 - 1) with false
+    by (symmetry; apply N.ltb_ge; lia).
+  simpl. eexists _, _, (d_id d - cfg_limit (cfg st) + 1 - 1). split; [reflexivity|]. simpl.
+  repeat (split; [reflexivity|]). lia.
+Qed.
+
+Lemma disk_commit_ok r0 l st d force :
+  CInv r0 l st -> ix st = None ->
+  d_id d = len l + 1 -> d_root d = t_root (d_tr d) -> wf_tr (sem_rev l) (d_tr d) ->
+  exists st', disk_commit st d force = Done st' /\ CInv r0 (d_tr d :: l) st' /\
+              cfg st' = cfg st /\ wait_sync st' = wait_sync st /\ diffs st' = diffs st /\
+              ix st' = None.
+Proof.
+  intros C Hix Hid Hroot W.
+  destruct (write_history_ok r0 l st d C Hix Hid)
+    as [st1 [fl [tail' [Hw [Edk [Eids [Ecfg [Ews [Ediffs [Eix [Efr [Ht1 Ht2]]]]]]]]]]]].
+  destruct C as [R Hh Ht]. destruct R as [D Hhl F Wc I].
+  destruct (commit_disk_ok r0 l (dk st) d (cfg_full (cfg st) || force || fl) D W Hid Hroot)
+    as [o' [Ho' D']].
+  unfold disk_commit. rewrite Hw. rewrite Edk, Ho'.
+  eexists. split; [reflexivity|]. simpl. rewrite Ecfg, Ews, Ediffs, Eix.
+  split; [|auto].
+  assert (Hlen : len (d_tr d :: l) = d_id d) by (rewrite len_cons; lia).
+  constructor; [constructor| |]; simpl.
+  - exact D'.
+  - rewrite Efr. simpl. lia.
+  - rewrite Efr. split.
+    + simpl fr_tail. simpl fr_data. intros _. fold (len (d_tr d :: l)). rewrite Hlen.
+      unfold updN. rewrite N.eqb_refl. f_equal.
+      rewrite (mk_history_wf _ _ _ _ W). rewrite (i_root _ _ _ D), Hroot. reflexivity.
+    + apply (frz_ok_window r0 (mkFrz (fr_tail (fr st)) (d_id d) _) l tail' (d_id d)); [simpl; lia|].
+      apply frz_ok_write; [lia|exact F].
+  - split; [exact W|exact Wc].
+  - assert (Hm : forall x i,
+        updN (if disk_id (dk st) =? 0 then updN (ids st1) (disk_root (dk st)) (Some 0) else ids st1)
+             (d_root d) (Some (d_id d)) x = Some i ->
+        ids st x = Some i \/ len l <= i).
+    { intros x i. unfold updN. destruct (d_root d =? x).
+      - intro E. injection E as <-. right. lia.
+      - destruct (disk_id (dk st) =? 0) eqn:E0.
+        + apply N.eqb_eq in E0. rewrite (i_id _ _ _ D) in E0.
+          destruct (disk_root (dk st) =? x); intro E; [right; lia|left; rewrite <- Eids; exact E].
+        + intro E. left. rewrite <- Eids. exact E. }
+    split.
+    + intros i. simpl root_rev. rewrite <- Hroot. unfold updN at 1. rewrite N.eqb_refl.
+      intro E. injection E as <-. fold (len (d_tr d :: l)). lia.
+    + apply (ids_ok_weaken r0 (ids st)); [exact Hm|exact I].
+  - rewrite Efr. simpl. symmetry. exact Hlen.
+  - rewrite Efr. simpl. exact Ht2.
+Qed.
+
+(* reverting the newest history restores the disk layer of before the transition *)
+Theorem revert_inverse r0 l st d force :
+  CInv r0 l st -> ix st = None ->
+  d_id d = len l + 1 -> d_root d = t_root (d_tr d) -> wf_tr (sem_rev l) (d_tr d) ->
+  exists st1 h st2,
+    disk_commit st d force = Done st1 /\
+    (fr_tail (fr st1) < disk_id (dk st1) ->
+       read_history (fr st1) (disk_id (dk st1)) = Ok h /\
+       revert st1 h = Done st2 /\
+       (forall k, eff (dk st2) k = eff (dk st) k) /\
+       disk_root (dk st2) = disk_root (dk st) /\ disk_id (dk st2) = disk_id (dk st) /\
+       RInv r0 l st2).
+Proof.
+  intros C Hix Hid Hroot W.
+  destruct (disk_commit_ok r0 l st d force C Hix Hid Hroot W) as [st1 [Hc [C1 [_ [_ [_ Hix1]]]]]].
+  exists st1, (mkHist (root_rev r0 l) (t_root (d_tr d)) (origs (d_tr d))).
+  destruct C1 as [R1 Hh1 Ht1].
+  assert (Hid1 := i_id _ _ _ (i_disk _ _ _ R1)).
+  destruct (Nat.eq_dec 0 0) as [_|]; [|contradiction].
+  destruct (N.ltb (fr_tail (fr st1)) (len (d_tr d :: l))) eqn:Elt.
+  - apply N.ltb_lt in Elt.
+    destruct (revert_step r0 (d_tr d) l st1 R1 Hix1 Elt) as [Hread [st2 [Hrev [R2 _]]]].
+    exists st2. split; [exact Hc|]. intros _. split; [exact Hread|]. split; [exact Hrev|].
+    destruct C as [R _ _]. destruct R as [D _ _ _ _]. destruct R2 as [D2 H2 F2 W2 I2].
+    split; [|split; [|split]].
+    + intro k. rewrite (i_eff _ _ _ D2), (i_eff _ _ _ D). reflexivity.
+    + rewrite (i_root _ _ _ D2), (i_root _ _ _ D). reflexivity.
+    + rewrite (i_id _ _ _ D2), (i_id _ _ _ D). reflexivity.
+    + constructor; auto.
+  - apply N.ltb_ge in Elt. exists st1. split; [exact Hc|]. intro Hlt. rewrite Hid1 in Hlt. lia.
+Qed.
+
+(* ---------- non-vacuity: a concrete history --------------------------------------- *)
+
+Definition ex_t1 : transition :=
+  mkTr 1 [mkChange (KA 0) 0 5; mkChange (KS 0 1) 0 7; mkChange (KA 1) 0 6].
+Definition ex_t2 : transition :=
+  mkTr 2 [mkChange (KA 0) 5 0; mkChange (KS 0 1) 7 0].          (* destruct with storage *)
+Definition ex_t3 : transition :=
+  mkTr 3 [mkChange (KA 0) 0 8; mkChange (KS 0 2) 0 9; mkChange (KA 1) 6 10].  (* re-create *)
+
+Definition ex_db : db :=
+  let c := mkCfg 0 false 128 in
+  let s0 := init_db c 0 false in
+  let s1 := outcome_state (update s0 0 ex_t1) in
+  let s2 := outcome_state (update s1 1 ex_t2) in
+  let s3 := outcome_state (update s2 2 ex_t3) in
+  outcome_state (cap s3 3 1).        (* two transitions in the disk layer's buffer *)
+
+Definition ex_keys : list key := [KA 0; KS 0 1; KS 0 2; KA 1].
+
+(* Recoverable(root 1) holds, Recover succeeds across two histories (one reverted in
+   the buffer, emptying it) and yields the state after ex_t1; root 3 is refused *)
+Definition ex_check : bool :=
+  recoverable ex_db 1 && negb (recoverable ex_db 3) && negb (recoverable ex_db 2) &&
+  match recover ex_db 1 with
+  | Done s =>
+      (disk_id (dk s) =? 1) && (disk_root (dk s) =? 1) && (fr_head (fr s) =? 1) &&
+      forallb (fun k => eff (dk s) k =? sem_rev [ex_t1] k) ex_keys &&
+      (eff (dk s) (KA 0) =? 5) && (eff (dk s) (KS 0 1) =? 7) && (eff (dk ex_db) (KA 0) =? 0)
+  | Fail _ _ => false
+  end &&
+  match recover ex_db 3 with Fail EUnrecoverable _ => true | _ => false end.
